@@ -26,6 +26,9 @@ def c01(repo, rep):
     S.r17(repo, rep, funcs=T.SIR_EVENT + ["Gillespie_SIR"])
     with rep.keep("R10d"):
         M.r10(repo, rep)
+    M.full_data_handoff(repo, rep)       # the trajectory handed back with return_full_data is the one that was simulated
+    with rep.keep("HIST"):
+        M.transform_history_rule(repo, rep)
 
 
 def c02(repo, rep):
@@ -41,6 +44,8 @@ def c02(repo, rep):
         R.r9_gillespie(repo, rep, "Gillespie_SIS")
         R.r9_event_driven(repo, rep, "fast_SIS")
     S.r17(repo, rep, funcs=T.SIS_EVENT + ["Gillespie_SIS"])
+    with rep.keep("HIST"):
+        M.transform_history_rule(repo, rep)   # per-node trajectories are rebuilt from the recorded infection / recovery times
 
 
 def c03(repo, rep):
@@ -68,6 +73,8 @@ def c04(repo, rep):
     with rep.keep("R10d", "R10c"):
         M.r10(repo, rep)
     M.full_data_handoff(repo, rep)
+    with rep.keep("R11s"):
+        G.simple_contagion_rule(repo, rep)   # "a spec edge for the generic simulators": the move applied is the chosen transition's
 
 
 def c05(repo, rep):
@@ -85,6 +92,8 @@ def c05(repo, rep):
         for n in ("fast_nonMarkov_SIR", "fast_SIS", "fast_nonMarkov_SIS"):
             R.r9_event_driven(repo, rep, n)
         R.r9_discrete(repo, rep)
+    with rep.keep("INV"):
+        M.investigation_rule(repo, rep)      # "per-node statuses at tmin" are read through node_status / get_statuses
 
 
 def c06(repo, rep):
@@ -147,6 +156,8 @@ def c10(repo, rep):
     with rep.keep("R10e", "R10c"):
         M.r10(repo, rep)
     M.full_data_handoff(repo, rep)
+    with rep.keep("H-guard"):
+        H.sir_guards(repo, rep)              # pred_inf_time becomes the infection time of the history: only queued events may set it
 
 
 def c11(repo, rep):
@@ -161,9 +172,11 @@ def c11(repo, rep):
     C.r1(repo, rep, callers=T.SIR_EVENT + T.PERCOLATION)
     with rep.keep("R9"):
         R.r9_event_driven(repo, rep, "fast_nonMarkov_SIR")
-    with rep.keep("R10d", "R10e"):
+    with rep.keep("R10d", "R10e", "R10a", "R10b"):
         M.r10(repo, rep)
     M.full_data_handoff(repo, rep)
+    with rep.keep("TRUTHY"):
+        X.truthy_rule(repo, rep, ["simulation"])    # "distance from the initially infected set": the set that was requested
 
 
 def c12(repo, rep):
@@ -176,8 +189,10 @@ def c12(repo, rep):
     with rep.keep("R14"):
         M.r14(repo, rep)
     X.r16w(repo, rep, ["simulation"])
-    with rep.keep("R10d", "R10c"):
+    with rep.keep("R10d", "R10c", "R10a", "R10b"):
         M.r10(repo, rep)
+    with rep.keep("TRUTHY"):
+        X.truthy_rule(repo, rep, ["simulation"])
 
 
 def c13(repo, rep):
@@ -189,6 +204,8 @@ def c13(repo, rep):
     C.r1(repo, rep, callers=T.SIS_NONMARKOV)
     with rep.keep("R9"):
         R.r9_event_driven(repo, rep, "fast_nonMarkov_SIS")
+    with rep.keep("HIST"):
+        M.transform_history_rule(repo, rep)   # "produces exactly the history": the per-node history is rebuilt by this helper
 
 
 def c14(repo, rep):
@@ -199,6 +216,12 @@ def c14(repo, rep):
     analytic = [f.name for f in repo.public_functions("analytic")]
     with rep.keep("R1c", "R1b", "R1a"):
         C.r1(repo, rep, callers=analytic)
+    with rep.keep("TRUTHY"):
+        X.truthy_rule(repo, rep, ["simulation", "analytic"])   # a node labelled 0 / '' / () is a node like any other
+    with rep.keep("R10a", "R10b"):
+        M.r10(repo, rep)
+    with rep.keep("R4o"):
+        O.r4(repo, rep)                     # a layout that follows dict order on one side only depends on insertion order
 
 
 def c15(repo, rep):
@@ -210,6 +233,13 @@ def c15(repo, rep):
 
 def c16(repo, rep):
     listdict.r12(repo, rep)
+    # "the total rate used for the clock equals the sum of current weights"
+    with rep.keep("RATE"):
+        G.rate_consistency_sir_sis(repo, rep, "Gillespie_SIR")
+        G.rate_consistency_sir_sis(repo, rep, "Gillespie_SIS")
+        G.simple_contagion_rule(repo, rep)
+    with rep.keep("R11c"):
+        G.complex_contagion_rule(repo, rep)
 
 
 def c17(repo, rep):
@@ -223,10 +253,12 @@ def c18(repo, rep):
     S.r7b(repo, rep)
     S.r7c(repo, rep)
     M.full_data_handoff(repo, rep)
+    effects.r5(repo, rep, modules=("simulation",))   # "identical output on repeated calls": a call must not change its arguments
 
 
 def c19(repo, rep):
     effects.r5(repo, rep)
+    effects.r5d(repo, rep)
 
 
 def c20(repo, rep):
